@@ -170,6 +170,9 @@ def check(ctx):
     fronts = [front_episode(ctx.rng) for _ in range(300 if ctx.thorough() else 50)]
     dfe.check(fronts, oracle=front_oracle, label="chain-front")
     ctx.cov["front_end_episodes"] = len(fronts)
+    # the chain that is built is the chain the file lists: entries, names, options and order as written
+    from .. import cfgfid
+    cfgfid.check(ctx, C.Differential(ctx, hel, timeout=300), n=40 if ctx.thorough() else 10)
     rej = built = failed = 0
     nontriv = set()
     if bad == 0:
